@@ -705,3 +705,4 @@ def check(run, replay=None):
 
 # workloads added in seeding rounds 7-10 (DESIGN.md sections 13.9-13.12)
 LEVEL_TEXT = LEVEL_TEXT + ' Later additions: makeuniq on grains refined since the ubi file was read (two scans per grain); hkl lists as float32 / int16 with orbit members that differ in one small index; lists of 2-4 reflections; point_by_point.idxpoint on simulated on-axis voxels of four lattice systems.'
+LEVEL_TEXT = LEVEL_TEXT + ' Round 11: point_by_point.initializer called twice in one process with different symmetries.'
